@@ -1849,3 +1849,1260 @@ Proof.
 Qed.
 
 End Ideal.
+
+(* ------------------------------------------------------------------------- *)
+(* Part 4: the shape of the iterator's call tree                               *)
+
+Section Shape.
+Variable h : heap.
+Variable dups : list addr.
+Variable omit_never : bool.
+
+Notation trav := (gtrav h dups omit_never).
+Notation trav_kids := (gtrav_kids h omit_never).
+
+(* the tree describes the heap below r, names taken from the table sF *)
+Fixpoint rel (sF : ist) (r : ref) (t : tm) : Prop :=
+  match t with
+  | TOmit => empty_target h r = true /\ omit_never = false
+  | TNull => r = None
+  | TRef id => exists a, r = Some a /\ mem a dups = true /\ named_find a (g_named sF) = Some id
+  | TNode a m k kids =>
+      r = Some a /\ exists n, hget h a = Some n /\ k = nkind n /\
+      match m with
+      | Some id => mem a dups = true /\ named_find a (g_named sF) = Some id
+      | None => mem a dups = false
+      end /\
+      (fix go (ks : list (label * tm)) (rs : list (label * ref)) : Prop :=
+         match ks, rs with
+         | [], [] => True
+         | (l, t') :: ks', (l', r') :: rs' =>
+             l = l' /\ (is_omit t' = true -> is_struct n = true) /\
+             (is_struct n = true -> omit_never = false -> t' <> TNull) /\ rel sF r' t' /\ go ks' rs'
+         | _, _ => False
+         end) kids (nkids n)
+  end.
+Fixpoint rel_kids (sF : ist) (sf : bool) (ks : list (label * tm)) (rs : list (label * ref)) : Prop :=
+  match ks, rs with
+  | [], [] => True
+  | (l, t') :: ks', (l', r') :: rs' =>
+      l = l' /\ (is_omit t' = true -> sf = true) /\ (sf = true -> omit_never = false -> t' <> TNull) /\
+      rel sF r' t' /\ rel_kids sF sf ks' rs'
+  | _, _ => False
+  end.
+Lemma rel_node sF r a m k kids :
+  rel sF r (TNode a m k kids) <->
+  r = Some a /\ exists n, hget h a = Some n /\ k = nkind n /\
+    match m with
+    | Some id => mem a dups = true /\ named_find a (g_named sF) = Some id
+    | None => mem a dups = false
+    end /\ rel_kids sF (is_struct n) kids (nkids n).
+Proof.
+  cbn [rel]. split; intros [H1 [n [H2 [H3 [H4 H5]]]]].
+  - split; [exact H1|]. exists n. split; [exact H2|]. split; [exact H3|]. split; [exact H4|].
+    revert H5. generalize (nkids n). induction kids as [|[l t] ks IH]; intros [|[l' r'] rs] H; simpl in *; try tauto.
+    destruct H as [A [B [B' [C D]]]]. repeat split; auto.
+  - split; [exact H1|]. exists n. split; [exact H2|]. split; [exact H3|]. split; [exact H4|].
+    revert H5. generalize (nkids n). induction kids as [|[l t] ks IH]; intros [|[l' r'] rs] H; simpl in *; try tauto.
+    destruct H as [A [B [B' [C D]]]]. split; [exact A|]. split; [exact B|]. split; [exact B'|]. split; [exact C|]. apply IH. exact D.
+Qed.
+
+Lemma kids_rel tr :
+  (forall r s t s', tr r s = Some (t, s') -> ext s s' /\ is_omit t = false /\ forall sF, ext s' sF -> rel sF r t) ->
+  forall sf rs s ts s', trav_kids tr sf rs s = Some (ts, s') ->
+    forall sF, ext s' sF -> rel_kids sF sf ts rs.
+Proof.
+  intros Htr sf rs. induction rs as [|[l r] rs IH]; intros s ts s' H sF HF; simpl in H.
+  - inversion H; subst. exact I.
+  - destruct (sf && negb omit_never && empty_target h r) eqn:Eo.
+    + destruct (trav_kids tr sf rs s) as [[ts0 s0]|] eqn:E; [|discriminate].
+      inversion H; subst. simpl.
+      apply andb_true_iff in Eo. destruct Eo as [Eo E3]. apply andb_true_iff in Eo. destruct Eo as [E1 E2].
+      split; [reflexivity|]. split; [intros _; exact E1|]. split; [discriminate|]. split.
+      * split; [exact E3|]. destruct omit_never; [discriminate | reflexivity].
+      * eapply IH; eauto.
+    + destruct (tr r s) as [[t1 s1]|] eqn:E1; [|discriminate].
+      destruct (trav_kids tr sf rs s1) as [[ts0 s0]|] eqn:E; [|discriminate].
+      inversion H; subst. simpl.
+      destruct (Htr _ _ _ _ E1) as [He1 [Hno Hr1]].
+      assert (He2 : ext s1 s').
+      { eapply (kids_ext h omit_never tr); [|exact E]. intros r0 s2 t2 s3 H2. apply (Htr _ _ _ _ H2). }
+      split; [reflexivity|]. split; [intro Hom; congruence|].
+      split.
+      { intros Hsf Hon ->. assert (Hn := Hr1 s1 (ext_refl s1)). simpl in Hn. subst r.
+        rewrite Hsf, Hon in Eo. simpl in Eo. discriminate. }
+      split; [apply Hr1; eapply ext_trans; eauto | eapply IH; eauto].
+Qed.
+
+Lemma named_find_cons_same (a : addr) id l : named_find a ((a, id) :: l) = Some id.
+Proof. simpl. rewrite N.eqb_refl. reflexivity. Qed.
+
+Lemma gtrav_rel fuel : forall r s t s',
+  trav fuel r s = Some (t, s') -> ext s s' /\ is_omit t = false /\ forall sF, ext s' sF -> rel sF r t.
+Proof.
+  induction fuel as [|f IH]; intros r s t s' H.
+  - destruct r as [a|]; simpl in H; [discriminate|]. inversion H; subst.
+    split; [apply ext_refl|]. split; [reflexivity|]. intros sF _. reflexivity.
+  - split; [eapply gtrav_ext; eauto|].
+    destruct r as [a|]; [|simpl in H; inversion H; subst; split; [reflexivity|]; intros sF _; reflexivity].
+    rewrite gtrav_S in H.
+    destruct (hget h a) as [n|] eqn:En; [|discriminate].
+    destruct (mem a dups) eqn:Ed.
+    + destruct (named_find a (g_named s)) as [id|] eqn:Enm.
+      * inversion H; subst. split; [reflexivity|]. intros sF HF. exists a. repeat split; auto.
+      * destruct (trav_kids (trav f) (is_struct n) (nkids n) _) as [[ts s2]|] eqn:Ek; [|discriminate].
+        inversion H; subst. split; [reflexivity|]. intros sF HF. apply rel_node.
+        split; [reflexivity|]. exists n. split; [exact En|]. split; [reflexivity|].
+        assert (He : ext (mkIst ((a, g_next s) :: g_named s) ((g_next s + 1) mod 4294967296)) s').
+        { eapply (kids_ext h omit_never (trav f)); [|exact Ek]. intros r0 s0 t0 s1 H0. apply (IH _ _ _ _ H0). }
+        split.
+        -- split; [exact Ed|]. apply HF, He. apply named_find_cons_same.
+        -- eapply kids_rel; [|exact Ek|exact HF]. intros r0 s0 t0 s1 H0. apply (IH _ _ _ _ H0).
+    + destruct (trav_kids (trav f) (is_struct n) (nkids n) s) as [[ts s2]|] eqn:Ek; [|discriminate].
+      inversion H; subst. split; [reflexivity|]. intros sF HF. apply rel_node.
+      split; [reflexivity|]. exists n. split; [exact En|]. split; [reflexivity|]. split; [exact Ed|].
+      eapply kids_rel; [|exact Ek|exact HF]. intros r0 s0 t0 s1 H0. apply (IH _ _ _ _ H0).
+Qed.
+
+(* ---- names ---- *)
+Fixpoint tm_marked (t : tm) : list (addr * N) :=
+  match t with
+  | TNode a m _ kids =>
+      (match m with Some id => [(a, id)] | None => [] end) ++ flat_map (fun lt : label * tm => tm_marked (snd lt)) kids
+  | _ => []
+  end.
+Definition kids_marked (ks : list (label * tm)) : list (addr * N) := flat_map (fun lt : label * tm => tm_marked (snd lt)) ks.
+
+Lemma kids_named tr :
+  (forall r s t s', tr r s = Some (t, s') -> g_named s' = rev (tm_marked t) ++ g_named s) ->
+  forall sf rs s ts s', trav_kids tr sf rs s = Some (ts, s') -> g_named s' = rev (kids_marked ts) ++ g_named s.
+Proof.
+  intros Htr sf rs. induction rs as [|[l r] rs IH]; intros s ts s' H; simpl in H.
+  - inversion H; subst. reflexivity.
+  - destruct (sf && negb omit_never && empty_target h r).
+    + destruct (trav_kids tr sf rs s) as [[ts0 s0]|] eqn:E; [|discriminate].
+      inversion H; subst. unfold kids_marked. simpl. apply (IH _ _ _ E).
+    + destruct (tr r s) as [[t1 s1]|] eqn:E1; [|discriminate].
+      destruct (trav_kids tr sf rs s1) as [[ts0 s0]|] eqn:E; [|discriminate].
+      inversion H; subst. unfold kids_marked. simpl. rewrite rev_app_distr, <- app_assoc.
+      rewrite <- (Htr _ _ _ _ E1). apply (IH _ _ _ E).
+Qed.
+
+Lemma gtrav_named fuel : forall r s t s',
+  trav fuel r s = Some (t, s') -> g_named s' = rev (tm_marked t) ++ g_named s.
+Proof.
+  induction fuel as [|f IH]; intros r s t s' H.
+  - destruct r as [a|]; simpl in H; [discriminate|]. inversion H; subst. reflexivity.
+  - destruct r as [a|]; [|simpl in H; inversion H; subst; reflexivity].
+    rewrite gtrav_S in H.
+    destruct (hget h a) as [n|] eqn:En; [|discriminate].
+    destruct (mem a dups) eqn:Ed.
+    + destruct (named_find a (g_named s)) as [id|] eqn:Enm.
+      * inversion H; subst. reflexivity.
+      * destruct (trav_kids (trav f) (is_struct n) (nkids n) _) as [[ts s2]|] eqn:Ek; [|discriminate].
+        inversion H; subst. rewrite (kids_named _ IH _ _ _ _ _ Ek). simpl.
+        fold (kids_marked ts). rewrite <- app_assoc. reflexivity.
+    + destruct (trav_kids (trav f) (is_struct n) (nkids n) s) as [[ts s2]|] eqn:Ek; [|discriminate].
+      inversion H; subst. rewrite (kids_named _ IH _ _ _ _ _ Ek). reflexivity.
+Qed.
+
+(* ---- the name table ---- *)
+Hypothesis dups_small : N.of_nat (length dups) < 4294967296.
+
+Definition ist_ok (s : ist) : Prop :=
+  NoDup (map fst (g_named s)) /\ NoDup (map snd (g_named s)) /\
+  (forall a id, In (a, id) (g_named s) -> mem a dups = true /\ id < g_next s) /\
+  g_next s = N.of_nat (length (g_named s)).
+
+Lemma named_find_None (a : addr) (l : list (addr * N)) : named_find a l = None -> ~ In a (map fst l).
+Proof.
+  induction l as [|[a' id] l IH]; simpl; intros H Hin; [exact Hin|].
+  destruct (a =? a') eqn:E; [discriminate|]. destruct Hin as [Heq|Hin].
+  - subst. rewrite N.eqb_refl in E. discriminate.
+  - apply IH; assumption.
+Qed.
+Lemma named_find_In (a : addr) id (l : list (addr * N)) :
+  NoDup (map fst l) -> (named_find a l = Some id <-> In (a, id) l).
+Proof.
+  induction l as [|[a' id'] l IH]; simpl; intro Hn; [split; [discriminate | tauto]|].
+  inversion Hn; subst. destruct (a =? a') eqn:E.
+  - apply N.eqb_eq in E. subst. split.
+    + intro H. inversion H; subst. left. reflexivity.
+    + intros [H|H]; [inversion H; reflexivity|]. exfalso. apply H1. apply in_map_iff. exists (a', id). auto.
+  - split.
+    + intro H. right. apply IH; assumption.
+    + intros [H|H]; [inversion H; subst; rewrite N.eqb_refl in E; discriminate|]. apply IH; assumption.
+Qed.
+
+Lemma ist_ok_cons s a :
+  ist_ok s -> mem a dups = true -> named_find a (g_named s) = None ->
+  ist_ok (mkIst ((a, g_next s) :: g_named s) ((g_next s + 1) mod 4294967296)).
+Proof.
+  intros [H1 [H2 [H3 H4]]] Hm Hn.
+  assert (Hnotin : ~ In a (map fst (g_named s))) by (apply named_find_None; exact Hn).
+  assert (Hlen : (length (a :: map fst (g_named s)) <= length dups)%nat).
+  { apply NoDup_incl_length; [constructor; assumption|].
+    intros x [->|Hx]; [apply mem_In; exact Hm|].
+    apply in_map_iff in Hx. destruct Hx as [[x' id] [Hx1 Hx2]]. simpl in Hx1. subst.
+    apply mem_In. apply (H3 _ _ Hx2). }
+  simpl in Hlen. rewrite map_length in Hlen.
+  assert (Hmod : (g_next s + 1) mod 4294967296 = g_next s + 1) by (apply N.mod_small; lia).
+  unfold ist_ok. simpl. rewrite Hmod. split; [constructor; assumption|]. split.
+  - constructor; [|exact H2]. intro Hin. apply in_map_iff in Hin. destruct Hin as [[x id] [Hx1 Hx2]]. simpl in Hx1. subst.
+    destruct (H3 _ _ Hx2) as [_ Hlt]. lia.
+  - split; [|lia]. intros x id [Heq|Hin].
+    + inversion Heq; subst. split; [exact Hm | lia].
+    + destruct (H3 _ _ Hin) as [Ha Hb]. split; [exact Ha | lia].
+Qed.
+
+Lemma kids_ok_ist tr :
+  (forall r s t s', ist_ok s -> tr r s = Some (t, s') -> ist_ok s') ->
+  forall sf rs s ts s', ist_ok s -> trav_kids tr sf rs s = Some (ts, s') -> ist_ok s'.
+Proof.
+  intros Htr sf rs. induction rs as [|[l r] rs IH]; intros s ts s' Hok H; simpl in H.
+  - inversion H; subst. exact Hok.
+  - destruct (sf && negb omit_never && empty_target h r).
+    + destruct (trav_kids tr sf rs s) as [[ts0 s0]|] eqn:E; [|discriminate]. inversion H; subst. eapply IH; eauto.
+    + destruct (tr r s) as [[t1 s1]|] eqn:E1; [|discriminate].
+      destruct (trav_kids tr sf rs s1) as [[ts0 s0]|] eqn:E; [|discriminate]. inversion H; subst.
+      eapply IH; [|exact E]. eapply Htr; eauto.
+Qed.
+
+Lemma gtrav_ok fuel : forall r s t s', ist_ok s -> trav fuel r s = Some (t, s') -> ist_ok s'.
+Proof.
+  induction fuel as [|f IH]; intros r s t s' Hok H.
+  - destruct r as [a|]; simpl in H; [discriminate|]. inversion H; subst. exact Hok.
+  - destruct r as [a|]; [|simpl in H; inversion H; subst; exact Hok].
+    rewrite gtrav_S in H.
+    destruct (hget h a) as [n|] eqn:En; [|discriminate].
+    destruct (mem a dups) eqn:Ed.
+    + destruct (named_find a (g_named s)) as [id|] eqn:Enm.
+      * inversion H; subst. exact Hok.
+      * destruct (trav_kids (trav f) (is_struct n) (nkids n) _) as [[ts s2]|] eqn:Ek; [|discriminate].
+        inversion H; subst. eapply (kids_ok_ist (trav f)); [exact IH | | exact Ek].
+        apply ist_ok_cons; assumption.
+    + destruct (trav_kids (trav f) (is_struct n) (nkids n) s) as [[ts s2]|] eqn:Ek; [|discriminate].
+      inversion H; subst. eapply (kids_ok_ist (trav f)); [exact IH | exact Hok | exact Ek].
+Qed.
+
+Lemma ist0_ok : ist_ok ist0.
+Proof. unfold ist_ok, ist0. simpl. repeat split; try constructor; try contradiction. Qed.
+
+End Shape.
+
+(* ---- every object is written out at most once ---- *)
+Section Shape2.
+Variable h : heap.
+Variable dups : list addr.
+Variable omit_never : bool.
+Notation rel := (rel h dups omit_never).
+Notation rel_kids := (rel_kids h dups omit_never).
+Notation rel_node := (rel_node h dups omit_never).
+
+Fixpoint tm_srcs (t : tm) : list addr :=
+  match t with
+  | TNode a _ _ kids => a :: flat_map (fun lt : label * tm => tm_srcs (snd lt)) kids
+  | _ => []
+  end.
+Definition kids_srcs (ks : list (label * tm)) : list addr := flat_map (fun lt : label * tm => tm_srcs (snd lt)) ks.
+Definition kidrefs (x : addr) : list ref :=
+  match hget h x with Some n => map snd (nkids n) | None => [] end.
+Notation cnt := (count_occ N.eq_dec).
+
+Lemma occurrences_cons b r rs :
+  occurrences b (r :: rs) = ((match r with Some a => if N.eqb b a then 1 else 0 | None => 0 end) + occurrences b rs)%nat.
+Proof.
+  unfold occurrences. simpl. destruct r as [a|]; [destruct (b =? a)|]; reflexivity.
+Qed.
+
+Section Count.
+Variable sF : ist.
+Variable b : addr.
+Hypothesis b_unmarked : mem b dups = false.
+Hypothesis b_nonempty : empty_target h (Some b) = false.
+Let g (x : addr) : nat := occurrences b (kidrefs x).
+
+Definition here (t : tm) (r : ref) : nat :=
+  match t, r with
+  | TNode _ _ _ _, Some a => if b =? a then 1%nat else 0%nat
+  | _, _ => 0%nat
+  end.
+
+(* a reference to b, unmarked and not empty, is always answered by writing b out *)
+Lemma here_ref t r : rel sF r t -> here t r = match r with Some a => if b =? a then 1%nat else 0%nat | None => 0%nat end.
+Proof.
+  intro H. destruct r as [a|]; [|destruct t; reflexivity].
+  destruct (b =? a) eqn:E; [|destruct t; simpl; rewrite ?E; reflexivity].
+  apply N.eqb_eq in E. subst a. destruct t; simpl in *.
+  - destruct H as [H _]. congruence.
+  - discriminate.
+  - destruct H as [a [H1 [H2 _]]]. inversion H1; subst. congruence.
+  - rewrite N.eqb_refl. reflexivity.
+Qed.
+
+Lemma count_eq t : forall r, rel sF r t -> cnt (tm_srcs t) b = (here t r + list_sum (map g (tm_srcs t)))%nat.
+Proof.
+  induction t as [| |id|a m k kids IHk] using tm_ind'; intros r H; try (destruct r; reflexivity).
+  apply rel_node in H. destruct H as [Hr [n [Hn [Hk [Hm Hkids]]]]]. subst r.
+  cbn [tm_srcs]. fold (kids_srcs kids). cbn [count_occ map list_sum here].
+  assert (Hg : g a = occurrences b (map snd (nkids n))) by (unfold g, kidrefs; rewrite Hn; reflexivity).
+  assert (Hks : cnt (kids_srcs kids) b = (occurrences b (map snd (nkids n)) + list_sum (map g (kids_srcs kids)))%nat).
+  { clear Hn Hg Hm. revert Hkids. generalize (nkids n). generalize (is_struct n).
+    induction kids as [|[l t] ks IHl]; intros sf [|[l' r'] rs] Hrel; simpl in Hrel; try contradiction.
+    - reflexivity.
+    - destruct Hrel as [_ [_ [_ [Hrt Hrest]]]]. inversion IHk as [|x xs Hx Hxs]; subst. simpl in Hx.
+      unfold kids_srcs. simpl. fold (kids_srcs ks). rewrite count_occ_app, map_app, list_sum_app.
+      change (@count_occ addr N.eq_dec) with (@count_occ N N.eq_dec).
+      rewrite (Hx _ Hrt), (IHl Hxs _ _ Hrest), (here_ref _ _ Hrt), occurrences_cons. lia. }
+  rewrite Hks, Hg. simpl (list_sum (_ :: _)). destruct (N.eq_dec a b) as [->|Hne].
+  - rewrite N.eqb_refl. lia.
+  - assert (E : (b =? a) = false) by (apply N.eqb_neq; congruence). rewrite E. lia.
+Qed.
+End Count.
+
+(* marked objects: once, because each gets one name *)
+Lemma count_marked sF t : forall r b, rel sF r t -> mem b dups = true ->
+  cnt (tm_srcs t) b = cnt (map fst (tm_marked t)) b.
+Proof.
+  induction t as [| |id|a m k kids IHk] using tm_ind'; intros r b H Hb; try reflexivity.
+  apply rel_node in H. destruct H as [Hr [n [Hn [Hk [Hm Hkids]]]]].
+  cbn [tm_srcs tm_marked]. fold (kids_srcs kids) (kids_marked kids). rewrite map_app.
+  assert (Hks : cnt (kids_srcs kids) b = cnt (map fst (kids_marked kids)) b).
+  { clear Hn Hm. revert Hkids. generalize (nkids n). generalize (is_struct n).
+    induction kids as [|[l t] ks IHl]; intros sf [|[l' r'] rs] Hrel; simpl in Hrel; try contradiction.
+    - reflexivity.
+    - destruct Hrel as [_ [_ [_ [Hrt Hrest]]]]. inversion IHk as [|x xs Hx Hxs]; subst. simpl in Hx.
+      unfold kids_srcs, kids_marked. simpl. fold (kids_srcs ks) (kids_marked ks).
+      rewrite map_app, !count_occ_app. change (@count_occ addr N.eq_dec) with (@count_occ N N.eq_dec).
+      rewrite (Hx _ _ Hrt Hb), (IHl Hxs _ _ Hrest). reflexivity. }
+  rewrite count_occ_app. change (@count_occ addr N.eq_dec) with (@count_occ N N.eq_dec). rewrite <- Hks.
+  destruct (N.eq_dec a b) as [->|Hne].
+  - destruct m as [id|]; [|rewrite Hb in Hm; discriminate]. simpl. destruct (N.eq_dec b b); [lia | contradiction].
+  - destruct m as [id|]; simpl; destruct (N.eq_dec a b); try contradiction; lia.
+Qed.
+
+Lemma list_sum_remove (g : addr -> nat) k l :
+  list_sum (map g l) = (cnt l k * g k + list_sum (map g (remove N.eq_dec k l)))%nat.
+Proof.
+  induction l as [|x l IH]; simpl; [lia|].
+  destruct (N.eq_dec k x) as [->|Hne].
+  - destruct (N.eq_dec x x); [|contradiction]. lia.
+  - destruct (N.eq_dec x k); [congruence|]. simpl. lia.
+Qed.
+Lemma count_remove_neq k x l : x <> k -> cnt (remove N.eq_dec k l) x = cnt l x.
+Proof.
+  intro Hne. induction l as [|y l IH]; simpl; [reflexivity|].
+  destruct (N.eq_dec k y) as [->|Hky].
+  - destruct (N.eq_dec y x); [congruence | exact IH].
+  - simpl. destruct (N.eq_dec y x); rewrite IH; reflexivity.
+Qed.
+
+Lemma sum_le_keys (g : addr -> nat) keys : NoDup keys -> forall l,
+  (forall x, In x l -> (g x > 0)%nat -> In x keys /\ (cnt l x <= 1)%nat) ->
+  (list_sum (map g l) <= list_sum (map g keys))%nat.
+Proof.
+  induction keys as [|k ks IH]; intros Hnd l H.
+  - simpl. assert (Hz : forall x, In x l -> g x = 0%nat).
+    { intros x Hx. destruct (g x) eqn:E; [reflexivity|]. destruct (H x Hx) as [[] _]. lia. }
+    clear H. induction l as [|x l IHl]; simpl; [lia|]. rewrite (Hz x (or_introl eq_refl)).
+    apply IHl. intros y Hy. apply Hz. right. exact Hy.
+  - inversion Hnd; subst. rewrite (list_sum_remove g k l). simpl.
+    assert (H1 : (cnt l k * g k <= g k)%nat).
+    { destruct (g k) eqn:E; [lia|]. destruct (in_dec N.eq_dec k l) as [Hin|Hnin].
+      - destruct (H k Hin) as [_ Hc]; [lia|]. nia.
+      - rewrite (proj1 (count_occ_not_In N.eq_dec l k) Hnin). lia. }
+    assert (H2' : (list_sum (map g (remove N.eq_dec k l)) <= list_sum (map g ks))%nat).
+    { apply IH; [assumption|]. intros x Hx Hg. apply in_remove in Hx. destruct Hx as [Hx Hne].
+      destruct (H x Hx Hg) as [[Heq|Hin] Hc]; [congruence|]. split; [exact Hin|].
+      rewrite count_remove_neq by exact Hne. exact Hc. }
+    lia.
+Qed.
+
+End Shape2.
+
+(* ---- every object is written out at most once (continued) ---- *)
+Section Unique.
+Variable h : heap.
+Variable dups : list addr.
+Variable omit_never : bool.
+Hypothesis dups_small : N.of_nat (length dups) < 4294967296.
+Hypothesis keys_distinct : NoDup (map fst h).
+Hypothesis nonempty : forall a n, hget h a = Some n -> container_empty n = false.
+Variable rk : addr -> nat.
+Variable L : nat.
+Hypothesis rk_bound : forall a, (rk a <= L)%nat.
+Hypothesis rk_drop : forall a n l b,
+  hget h a = Some n -> In (l, Some b) (nkids n) -> mem b dups = false -> (rk b < rk a)%nat.
+Variable root : ref.
+Hypothesis indeg : forall a n, hget h a = Some n -> mem a dups = false ->
+  (occurrences a (root :: all_kids h) <= 1)%nat.
+
+Notation cnt := (count_occ N.eq_dec).
+
+Lemma hget_In_nodup (hh : heap) a n : NoDup (map fst hh) -> In (a, n) hh -> hget hh a = Some n.
+Proof.
+  induction hh as [|[a' n'] hh IH]; simpl; intros Hn Hin; [contradiction|].
+  inversion Hn; subst. destruct Hin as [Heq|Hin].
+  - inversion Heq; subst. rewrite N.eqb_refl. reflexivity.
+  - destruct (a =? a') eqn:E.
+    + apply N.eqb_eq in E. subst. exfalso. apply H1. apply in_map_iff. exists (a', n). auto.
+    + apply IH; assumption.
+Qed.
+
+Lemma occurrences_app b l1 l2 : occurrences b (l1 ++ l2) = (occurrences b l1 + occurrences b l2)%nat.
+Proof. unfold occurrences. rewrite filter_app, app_length. reflexivity. Qed.
+
+Lemma occ_all_kids b :
+  occurrences b (all_kids h) = list_sum (map (fun x => occurrences b (kidrefs h x)) (map fst h)).
+Proof.
+  unfold all_kids.
+  assert (H : forall l, incl l h ->
+            occurrences b (flat_map (fun an : addr * node => map snd (nkids (snd an))) l) =
+            list_sum (map (fun x => occurrences b (kidrefs h x)) (map fst l))).
+  { induction l as [|[a n] l IH]; intro Hi; simpl; [reflexivity|].
+    rewrite occurrences_app, IH by (intros x Hx; apply Hi; right; exact Hx).
+    assert (E : kidrefs h a = map snd (nkids n)).
+    { unfold kidrefs. rewrite (hget_In_nodup h a n keys_distinct) by (apply Hi; left; reflexivity). reflexivity. }
+    rewrite E. reflexivity. }
+  apply H. apply incl_refl.
+Qed.
+
+Lemma srcs_in_heap sF t : forall r x, rel h dups omit_never sF r t -> In x (tm_srcs t) -> exists n, hget h x = Some n.
+Proof.
+  induction t as [| |id|a m k kids IHk] using tm_ind'; intros r x H Hin; try (simpl in Hin; contradiction).
+  apply rel_node in H. destruct H as [Hr [n [Hn [Hk [Hm Hkids]]]]].
+  cbn [tm_srcs] in Hin. destruct Hin as [<-|Hin]; [eauto|].
+  revert Hkids Hin. generalize (nkids n). generalize (is_struct n).
+  induction kids as [|[l t] ks IHl]; intros sf [|[l' r'] rs] Hrel Hin; simpl in Hrel; try contradiction.
+  destruct Hrel as [_ [_ [_ [Hrt Hrest]]]]. inversion IHk as [|y ys Hy Hys]; subst. simpl in Hy.
+  simpl in Hin. apply in_app_or in Hin. destruct Hin as [Hin|Hin].
+  - eapply Hy; eauto.
+  - eapply IHl; eauto.
+Qed.
+
+Lemma kidrefs_edge x b : (occurrences b (kidrefs h x) > 0)%nat ->
+  exists n l, hget h x = Some n /\ In (l, Some b) (nkids n).
+Proof.
+  unfold kidrefs. destruct (hget h x) as [n|]; [|intro H; unfold occurrences in H; simpl in H; lia].
+  intro H. exists n. unfold occurrences in H.
+  destruct (filter _ (map snd (nkids n))) as [|r rs] eqn:E; [simpl in H; lia|].
+  assert (Hin : In r (filter (fun r : ref => match r with Some b0 => b =? b0 | None => false end) (map snd (nkids n))))
+    by (rewrite E; left; reflexivity).
+  apply filter_In in Hin. destruct Hin as [Hin Hb]. destruct r as [b0|]; [|discriminate].
+  apply N.eqb_eq in Hb. subst b0. apply in_map_iff in Hin. destruct Hin as [[l r] [Hr Hin]]. simpl in Hr. subst.
+  exists l. split; [reflexivity | exact Hin].
+Qed.
+
+Section WithTree.
+Variables (fuel : nat) (t0 : tm) (s' : ist).
+Hypothesis Htrav : gtrav h dups omit_never fuel root ist0 = Some (t0, s').
+
+Lemma t0_rel : rel h dups omit_never s' root t0.
+Proof. destruct (gtrav_rel h dups omit_never fuel _ _ _ _ Htrav) as [_ [_ H]]. apply H. apply ext_refl. Qed.
+
+Lemma t0_named : g_named s' = rev (tm_marked t0).
+Proof. rewrite (gtrav_named h dups omit_never fuel _ _ _ _ Htrav). simpl. apply app_nil_r. Qed.
+
+Lemma t0_ok : ist_ok dups s'.
+Proof. eapply gtrav_ok; [exact dups_small | apply ist0_ok | exact Htrav]. Qed.
+
+Lemma marked_nodup : NoDup (map fst (tm_marked t0)) /\ NoDup (map snd (tm_marked t0)).
+Proof.
+  destruct t0_ok as [H1 [H2 _]]. rewrite t0_named in H1, H2. rewrite map_rev in H1, H2.
+  split; [apply NoDup_rev in H1 | apply NoDup_rev in H2]; rewrite rev_involutive in *; assumption.
+Qed.
+
+Lemma count_le1 : forall n b, (L - rk b <= n)%nat -> (cnt (tm_srcs t0) b <= 1)%nat.
+Proof.
+  assert (Hdup : forall b, mem b dups = true -> (cnt (tm_srcs t0) b <= 1)%nat).
+  { intros b Hb. rewrite (count_marked h dups omit_never s' t0 root b t0_rel Hb).
+    apply NoDup_count_occ. apply marked_nodup. }
+  induction n as [n IH] using lt_wf_ind. intros b Hn.
+  destruct (mem b dups) eqn:Hb; [apply Hdup; exact Hb|].
+  destruct (in_dec N.eq_dec b (tm_srcs t0)) as [Hin|Hnin];
+    [|rewrite (proj1 (count_occ_not_In N.eq_dec _ _) Hnin); lia].
+  destruct (srcs_in_heap _ _ _ _ t0_rel Hin) as [nb Hnb].
+  assert (Hne : empty_target h (Some b) = false) by (simpl; rewrite Hnb; eapply nonempty; eauto).
+  rewrite (count_eq h dups omit_never s' b Hb Hne t0 root t0_rel).
+  rewrite (here_ref h dups omit_never s' b Hb Hne t0 root t0_rel).
+  assert (Hsum : (list_sum (map (fun x => occurrences b (kidrefs h x)) (tm_srcs t0)) <=
+                  list_sum (map (fun x => occurrences b (kidrefs h x)) (map fst h)))%nat).
+  { apply sum_le_keys; [exact keys_distinct|]. intros x Hx Hg.
+    destruct (srcs_in_heap _ _ _ _ t0_rel Hx) as [nx Hnx]. split.
+    - apply hget_In in Hnx. apply in_map_iff. exists (x, nx). auto.
+    - destruct (kidrefs_edge _ _ Hg) as [n1 [l [Hn1 Hedge]]].
+      assert (rk b < rk x)%nat by (eapply rk_drop; eauto).
+      assert (Hb2 := rk_bound x). assert (Hb3 := rk_bound b).
+      destruct (mem x dups) eqn:Hxd; [apply Hdup; exact Hxd|].
+      apply (IH (L - rk x)%nat); lia. }
+  rewrite <- occ_all_kids in Hsum.
+  assert (Hind := indeg _ _ Hnb Hb). rewrite occurrences_cons in Hind. lia.
+Qed.
+
+Lemma srcs_nodup : NoDup (tm_srcs t0).
+Proof. apply NoDup_count_occ with (decA := N.eq_dec). intro b. apply (count_le1 (L - rk b) b). lia. Qed.
+
+End WithTree.
+End Unique.
+
+(* ---- a typed heap gives a tree the builder stack can follow ---- *)
+Section Typed.
+Variable h : heap.
+Variable dups : list addr.
+Hypothesis node_ok : forall a n, hget h a = Some n -> node_typed h n = true.
+
+Notation rel := (rel h dups false).
+Notation rel_kids := (rel_kids h dups false).
+
+Definition kind_ty (k : kind) : ty := match k with KStruct _ => TPtr | KSlice => TSlice | KMap => TMap end.
+
+Lemma target_ok_kind t a n : hget h a = Some n -> target_ok h t (Some a) = true -> kind_ty (nkind n) = t.
+Proof.
+  intros Hn. simpl. rewrite Hn. destruct n as [k ks]. destruct k, t; simpl; congruence.
+Qed.
+
+Lemma rel_kids_labels sF sf kids rs : rel_kids sF sf kids rs -> map fst kids = map fst rs.
+Proof.
+  revert rs. induction kids as [|[l t] ks IH]; intros [|[l' r'] rs] H; simpl in H; try contradiction; try reflexivity.
+  destruct H as [-> [_ [_ [_ H]]]]. simpl. f_equal. apply IH. exact H.
+Qed.
+
+Lemma rel_kids_In sF sf kids rs l t :
+  rel_kids sF sf kids rs -> In (l, t) kids ->
+  exists r, In (l, r) rs /\ rel sF r t /\ (is_omit t = true -> sf = true) /\ (sf = true -> t <> TNull).
+Proof.
+  revert rs. induction kids as [|[l0 t0] ks IH]; intros [|[l' r'] rs] H Hin; simpl in H; try contradiction; try (destruct Hin; fail).
+  destruct H as [-> [H1 [H2 [H3 H4]]]]. destruct Hin as [Heq|Hin].
+  - inversion Heq; subst. exists r'. split; [left; reflexivity|]. split; [exact H3|]. split; [exact H1|]. intro; apply H2; auto.
+  - destruct (IH _ H4 Hin) as [r [Ha Hb]]. exists r. split; [right; exact Ha | exact Hb].
+Qed.
+
+(* what node_typed says, per kind *)
+Lemma struct_kids n v :
+  node_typed h n = true -> nkind n = KStruct v ->
+  map fst (nkids n) = map fst zero_fields /\
+  forall l r, In (l, r) (nkids n) -> exists i fty, l = LF i /\ i < 5 /\
+     field_find (field_label_name (LF i)) 0 fields = Some (LF i, fty) /\ target_ok h fty r = true.
+Proof.
+  unfold node_typed. intros H Hk. rewrite Hk in H. apply andb_true_iff in H. destruct H as [H1 H2].
+  assert (Hl : map fst (nkids n) = map fst zero_fields).
+  { apply (list_eqb_eq label_eqb label_eqb_eq). exact H1. }
+  split; [exact Hl|].
+  destruct (nkids n) as [|[l0 r0] [|[l1 r1] [|[l2 r2] [|[l3 r3] [|[l4 r4] [|x xs]]]]]]; simpl in Hl; try discriminate.
+  inversion Hl; subst. simpl in H2.
+  destruct (target_ok h TPtr r0) eqn:E0; [|discriminate].
+  destruct (target_ok h TPtr r1) eqn:E1; [|discriminate].
+  destruct (target_ok h TPtr r2) eqn:E2; [|discriminate].
+  destruct (target_ok h TSlice r3) eqn:E3; [|discriminate].
+  destruct (target_ok h TMap r4) eqn:E4; [|discriminate].
+  intros l r [Heq|[Heq|[Heq|[Heq|[Heq|[]]]]]]; inversion Heq; subst.
+  - exists 0, TPtr. repeat split; auto; lia.
+  - exists 1, TPtr. repeat split; auto; lia.
+  - exists 2, TPtr. repeat split; auto; lia.
+  - exists 3, TSlice. repeat split; auto; lia.
+  - exists 4, TMap. repeat split; auto; lia.
+Qed.
+
+Lemma slice_labels_nodup i ks :
+  slice_labels_ok i ks = true ->
+  NoDup (map fst ks) /\ (forall l r, In (l, r) ks -> exists j, l = LI j /\ i <= j).
+Proof.
+  revert i. induction ks as [|[l r] ks IH]; intros i H; simpl in *.
+  - split; [constructor | intros ? ? []].
+  - destruct l as [j|j|z]; try discriminate. apply andb_true_iff in H. destruct H as [Hj H]. apply N.eqb_eq in Hj. subst j.
+    destruct (IH _ H) as [Hn Hl]. split.
+    + constructor; [|exact Hn]. intro Hin. apply in_map_iff in Hin. destruct Hin as [[l' r'] [Hl' Hin]]. simpl in Hl'. subst.
+      destruct (Hl _ _ Hin) as [j [Hj Hle]]. inversion Hj. lia.
+    + intros l0 r0 [Heq|Hin]; [inversion Heq; subst; exists i; split; [reflexivity | lia]|].
+      destruct (Hl _ _ Hin) as [j [Hj Hle]]. exists j. split; [exact Hj | lia].
+Qed.
+
+Lemma map_labels_nodup seen ks :
+  map_labels_ok seen ks = true ->
+  NoDup (map fst ks) /\ (forall l r, In (l, r) ks -> exists z, l = LK z /\ ~ In z seen).
+Proof.
+  revert seen. induction ks as [|[l r] ks IH]; intros seen H; simpl in *.
+  - split; [constructor | intros ? ? []].
+  - destruct l as [j|j|z]; try discriminate. apply andb_true_iff in H. destruct H as [Hz H].
+    destruct (IH _ H) as [Hn Hl].
+    assert (Hz' : ~ In z seen).
+    { intro Hin. apply negb_true_iff in Hz. assert (existsb (Z.eqb z) seen = true); [|congruence].
+      apply existsb_exists. exists z. split; [exact Hin | apply Z.eqb_refl]. }
+    split.
+    + constructor; [|exact Hn]. intro Hin. apply in_map_iff in Hin. destruct Hin as [[l' r'] [Hl' Hin]]. simpl in Hl'. subst.
+      destruct (Hl _ _ Hin) as [z' [Hj Hni]]. inversion Hj; subst. apply Hni. left. reflexivity.
+    + intros l0 r0 [Heq|Hin]; [inversion Heq; subst; exists z; split; [reflexivity | exact Hz']|].
+      destruct (Hl _ _ Hin) as [z' [Hj Hni]]. exists z'. split; [exact Hj|]. intro. apply Hni. right. assumption.
+Qed.
+
+Lemma elem_kids n :
+  node_typed h n = true -> (nkind n = KSlice \/ nkind n = KMap) ->
+  forall l r, In (l, r) (nkids n) -> target_ok h TPtr r = true.
+Proof.
+  unfold node_typed. intros H [Hk|Hk] l r Hin; rewrite Hk in H; apply andb_true_iff in H; destruct H as [_ H];
+    rewrite forallb_forall in H; apply (H _ Hin).
+Qed.
+
+(* slice positions, as the tree sees them *)
+Lemma slice_seq_of sF i kids rs :
+  rel_kids sF false kids rs -> slice_labels_ok i rs = true -> slice_seq i kids.
+Proof.
+  revert i rs. induction kids as [|[l t] ks IH]; intros i [|[l' r'] rs] H Hs; simpl in H; try contradiction; try exact I.
+  destruct H as [-> [H1 [_ [_ H4]]]]. simpl in Hs. destruct l' as [j|j|z]; try discriminate.
+  apply andb_true_iff in Hs. destruct Hs as [Hj Hs]. apply N.eqb_eq in Hj. subst j. simpl.
+  split; [reflexivity|]. split.
+  - destruct (is_omit t) eqn:E; [|reflexivity]. specialize (H1 eq_refl). discriminate.
+  - replace (i + 1) with (N.succ i) by lia. eapply IH; eauto.
+Qed.
+
+Lemma rel_wf sF t : forall r, rel sF r t -> tm_wf t /\ tm_nn t.
+Proof.
+  induction t as [| |id|a m k kids IHk] using tm_ind'; intros r H; try (split; exact I).
+  apply rel_node in H. destruct H as [Hr [n [Hn [Hk [Hm Hkids]]]]].
+  assert (Hty := node_ok _ _ Hn).
+  assert (Hlab := rel_kids_labels _ _ _ _ Hkids).
+  assert (Hall : Forall (fun lt : label * tm => tm_wf (snd lt) /\ tm_nn (snd lt)) kids).
+  { clear Hlab. revert Hkids. generalize (nkids n). generalize (is_struct n).
+    induction kids as [|[l t] ks IHl]; intros sf [|[l' r'] rs] Hrel; simpl in Hrel; try contradiction; try (constructor; fail).
+    destruct Hrel as [_ [_ [_ [Hrt Hrest]]]]. inversion IHk as [|y ys Hy Hys]; subst. simpl in Hy.
+    constructor; [eapply Hy; eauto | eapply IHl; eauto]. }
+  split.
+  - apply tm_wf_node. split.
+    + unfold kids_ok. rewrite Hlab. subst k. destruct (nkind n) as [v| |] eqn:Ek.
+      * destruct (struct_kids n v Hty Ek) as [Hl Hf]. split; [rewrite Hl; repeat constructor; simpl; intuition discriminate|].
+        intros l t Hin. destruct (rel_kids_In _ _ _ _ _ _ Hkids Hin) as [r0 [Hr0 _]].
+        destruct (Hf _ _ Hr0) as [i [fty [-> [Hi _]]]]. eauto.
+      * unfold node_typed in Hty. rewrite Ek in Hty. apply andb_true_iff in Hty. destruct Hty as [Hs _].
+        split; [apply (slice_labels_nodup 0 _ Hs)|].
+        eapply slice_seq_of; [|exact Hs]. unfold is_struct in Hkids. rewrite Ek in Hkids. exact Hkids.
+      * unfold node_typed in Hty. rewrite Ek in Hty. apply andb_true_iff in Hty. destruct Hty as [Hs _].
+        split; [apply (map_labels_nodup [] _ Hs)|].
+        intros l t Hin. destruct (rel_kids_In _ _ _ _ _ _ Hkids Hin) as [r0 [Hr0 _]].
+        destruct (proj2 (map_labels_nodup [] _ Hs) _ _ Hr0) as [z [-> _]]. eauto.
+    + eapply Forall_impl; [|exact Hall]. intros lt [Ha _]. exact Ha.
+  - apply tm_nn_node. split.
+    + subst k. destruct (nkind n) eqn:Ek; auto. intros l t Hin.
+      destruct (rel_kids_In _ _ _ _ _ _ Hkids Hin) as [r0 [_ [_ [_ Hnn]]]]. apply Hnn.
+      unfold is_struct. rewrite Ek. reflexivity.
+    + eapply Forall_impl; [|exact Hall]. intros lt [_ Hb]. exact Hb.
+Qed.
+
+End Typed.
+
+Section Total.
+Variable h : heap.
+Variable dups : list addr.
+Hypothesis node_ok : forall a n, hget h a = Some n -> node_typed h n = true.
+Variable oref : bytes -> slot -> bst -> bst.
+Variable omark : bytes -> addr -> bst -> bst.
+Variable sF : ist.
+
+Notation rel := (rel h dups false sF).
+Notation rel_kids := (rel_kids h dups false sF).
+Notation ev := (eff_val oref omark).
+
+Definition TotalGoal (t : tm) : Prop :=
+  forall r ty f s,
+    rel r t -> target_ok h ty r = true -> frame_ty f = Some ty -> is_omit t = false ->
+    (forall id, t = TRef id -> f <> FTop) -> (t = TNull -> ty = TPtr) ->
+    exists s', ev t f s = Some (next_frame f, s').
+
+Definition kid_typed (sf : bool) (cf : bframe) (l : label) (r : ref) : Prop :=
+  forall vf, kid_frame cf l = Some vf ->
+    exists ty, frame_ty vf = Some ty /\ target_ok h ty r = true /\ vf <> FTop /\ (sf = false -> ty = TPtr).
+
+Lemma total_kids sf kids :
+  Forall (fun lt : label * tm => TotalGoal (snd lt)) kids ->
+  forall rs cf s p,
+    rel_kids sf kids rs -> frame_addr cf = Some p -> kids_fit cf kids ->
+    (forall l r, In (l, r) rs -> forall cf0, frame_addr cf0 = Some p -> container_frame cf0 = container_frame cf ->
+        (match cf0, cf with FStructKey _, FStructKey _ | FSlice _ _, FSlice _ _ | FMapKey _, FMapKey _ => True | _, _ => False end) ->
+        kid_typed sf cf0 l r) ->
+    exists cf' s', eff_kids ev kids cf s = Some (cf', s') /\ frame_addr cf' = Some p.
+Proof.
+  induction kids as [|[l t] ks IH]; intros HG rs cf s p Hrel Hp Hfit Hty.
+  - simpl. eauto.
+  - destruct rs as [|[l' r'] rs]; simpl in Hrel; [contradiction|].
+    destruct Hrel as [<- [Hom [Hnn [Hrt Hrest]]]]. inversion HG as [|x xs Hx Hxs]; subst. simpl in Hx.
+    simpl. destruct (is_omit t) eqn:Eo.
+    + apply (IH Hxs rs cf s p Hrest Hp (kids_fit_skip _ _ _ _ Hfit Eo)).
+      intros l0 r0 Hin. apply Hty. right. exact Hin.
+    + destruct (kids_fit_step cf p l t ks Hp Hfit Eo) as [vf [Ekf [Hslot [Hfit' Hp']]]].
+      rewrite Ekf.
+      assert (Hsame : match cf, cf with FStructKey _, FStructKey _ | FSlice _ _, FSlice _ _ | FMapKey _, FMapKey _ => True | _, _ => False end).
+      { destruct cf; simpl in Hp; try discriminate; exact I. }
+      destruct (Hty l r' (or_introl eq_refl) cf Hp eq_refl Hsame vf Ekf) as [ty [Hfty [Htg [Hntop Hptr]]]].
+      destruct (Hx r' ty vf s Hrt Htg Hfty Eo) as [s1 E1].
+      { intros id _. exact Hntop. }
+      { intros ->. destruct sf; [exfalso; apply Hnn; auto | apply Hptr; reflexivity]. }
+      rewrite E1.
+      apply (IH Hxs rs (next_frame vf) s1 p Hrest Hp' Hfit').
+      intros l0 r0 Hin cf0 Hp0 Hc0 Hm0. apply Hty; [right; exact Hin | exact Hp0 | |].
+      * destruct cf, l; simpl in Ekf; try discriminate.
+        -- destruct (field_find _ 0 fields) as [[l2 t2]|]; [|discriminate]. inversion Ekf; subst. exact Hc0.
+        -- inversion Ekf; subst. exact Hc0.
+        -- inversion Ekf; subst. exact Hc0.
+      * destruct cf, l; simpl in Ekf; try discriminate.
+        -- destruct (field_find _ 0 fields) as [[l2 t2]|]; [|discriminate]. inversion Ekf; subst. exact Hm0.
+        -- inversion Ekf; subst. exact Hm0.
+        -- inversion Ekf; subst. exact Hm0.
+Qed.
+
+Lemma rel_total t : tm_wf t -> TotalGoal t.
+Proof.
+  induction t as [| |id|a m k kids IHk] using tm_ind'; intros Hwf r ty f s H Htg Hf Hom Href Hnull.
+  - discriminate.
+  - cbn [eff_val]. specialize (Hnull eq_refl). subst ty.
+    destruct f; simpl in Hf; try discriminate; simpl; eauto.
+    inversion Hf; subst. simpl. eauto.
+  - cbn [eff_val]. unfold ref_step. specialize (Href id eq_refl).
+    destruct f; simpl in Hf; try discriminate; simpl; eauto. contradiction.
+  - apply tm_wf_node in Hwf. destruct Hwf as [Hok Hwk].
+    apply rel_node in H. destruct H as [Hr [n [Hn [Hk [Hm Hkids]]]]]. subst r.
+    assert (Hkt := target_ok_kind h ty a n Hn Htg).
+    assert (Hnt := node_ok _ _ Hn).
+    cbn [eff_val]. rewrite Hf.
+    assert (Hb : exists cf s1', begin_container ty (kind_begin k) s = Some (cf, snd (b_alloc (match k with KStruct _ => KStruct 0 | k0 => k0 end) (base_kids k) s)) /\
+                   after_begin k cf (snd (b_alloc (match k with KStruct _ => KStruct 0 | k0 => k0 end) (base_kids k) s)) = Some s1' /\
+                   frame_addr cf = Some (b_next s) /\
+                   (cf = FStructKey (b_next s) \/ cf = FSlice (b_next s) 0 \/ cf = FMapKey (b_next s)) /\
+                   match k, cf with KStruct _, FStructKey _ | KSlice, FSlice _ _ | KMap, FMapKey _ => True | _, _ => False end).
+    { subst k ty. destruct (nkind n); simpl; eexists; eexists; repeat split; auto. }
+    destruct Hb as [cf [s1' [Eb [Ea [Hp [Hc Hkc]]]]]]. rewrite Eb, Ea.
+    assert (Hfit : kids_fit cf kids) by (eapply after_begin_fit; eauto).
+    assert (IHk' : Forall (fun lt : label * tm => TotalGoal (snd lt)) kids).
+    { clear - IHk Hwk. induction kids as [|lt r IHr]; [constructor|].
+      inversion IHk; subst. inversion Hwk; subst. constructor; [auto | apply IHr; assumption]. }
+    destruct (total_kids (is_struct n) kids IHk' (nkids n) cf s1' (b_next s) Hkids Hp Hfit) as [cf' [s2 [Ek Hp2]]].
+    { intros l r Hin cf0 Hp0 _ Hm0 vf Ev. subst k.
+      destruct (nkind n) as [v| |] eqn:Ekn.
+      - destruct (struct_kids h n v Hnt Ekn) as [_ Hfld]. destruct (Hfld _ _ Hin) as [i [fty [-> [Hi [Hff Htg']]]]].
+        destruct cf; try contradiction. destruct cf0; try contradiction.
+        simpl in Ev. rewrite Hff in Ev. inversion Ev; subst. exists fty. simpl.
+        repeat split; auto; try discriminate. unfold is_struct. rewrite Ekn. discriminate.
+      - assert (Htg' := elem_kids h n Hnt (or_introl Ekn) _ _ Hin).
+        destruct cf; try contradiction. destruct cf0; try contradiction.
+        destruct l; simpl in Ev; try discriminate. inversion Ev; subst. exists TPtr. simpl. repeat split; auto; discriminate.
+      - assert (Htg' := elem_kids h n Hnt (or_intror Ekn) _ _ Hin).
+        destruct cf; try contradiction. destruct cf0; try contradiction.
+        destruct l; simpl in Ev; try discriminate. inversion Ev; subst. exists TPtr. simpl. repeat split; auto; discriminate. }
+    rewrite Ek, Hp2.
+    destruct f; simpl in Hf; try discriminate; simpl; eauto.
+Qed.
+
+End Total.
+
+(* ------------------------------------------------------------------------- *)
+(* Part 5: marshal + unmarshal gives an isomorphic heap                         *)
+
+(* decimal ids are distinct *)
+Fixpoint undec_rev (l : bytes) : N :=
+  match l with
+  | [] => 0
+  | d :: r => (d - 48) + 10 * undec_rev r
+  end.
+Lemma undec_dec_rev fuel : forall n, n < 10 ^ N.of_nat fuel -> undec_rev (dec_rev fuel n) = n.
+Proof.
+  induction fuel as [|f IH]; intros n Hn.
+  - simpl in Hn. assert (n = 0) by lia. subst. reflexivity.
+  - cbn [dec_rev undec_rev].
+    assert (Hdiv : n / 10 < 10 ^ N.of_nat f).
+    { apply N.div_lt_upper_bound; [lia|]. rewrite Nat2N.inj_succ, N.pow_succ_r' in Hn. lia. }
+    assert (Hm : n mod 10 < 10) by (apply N.mod_lt; lia).
+    assert (Hd : n = 10 * (n / 10) + n mod 10) by (apply N.div_mod; lia).
+    destruct (n / 10 =? 0) eqn:E.
+    + apply N.eqb_eq in E. cbn [undec_rev]. lia.
+    + cbn [undec_rev]. rewrite (IH _ Hdiv). lia.
+Qed.
+Lemma dec_bytes_inj a b : a < 4294967296 -> b < 4294967296 -> dec_bytes a = dec_bytes b -> a = b.
+Proof.
+  intros Ha Hb H. unfold dec_bytes in H.
+  assert (H' : dec_rev 20 a = dec_rev 20 b).
+  { rewrite <- (rev_involutive (dec_rev 20 a)), <- (rev_involutive (dec_rev 20 b)), H. reflexivity. }
+  assert (Hp : 4294967296 < 10 ^ N.of_nat 20) by (vm_compute; reflexivity).
+  rewrite <- (undec_dec_rev 20 a), <- (undec_dec_rev 20 b), H' by lia. reflexivity.
+Qed.
+
+(* addresses the builder gives to the objects of a tree *)
+Fixpoint assign (t : tm) (next : addr) : list (addr * addr) :=
+  match t with
+  | TNode a _ _ kids => (a, next) :: kids_at assign kids (next + 1)
+  | _ => []
+  end.
+
+Lemma kids_at_app {A} (g : tm -> addr -> list A) pre post nx :
+  kids_at g (pre ++ post) nx = kids_at g pre nx ++ kids_at g post (nx + kids_sz pre).
+Proof.
+  revert nx. induction pre as [|[l t] pre IH]; intro nx; cbn [kids_at app snd].
+  - rewrite kids_sz_nil, N.add_0_r. reflexivity.
+  - rewrite IH, kids_sz_cons, <- app_assoc. do 3 f_equal. lia.
+Qed.
+
+Lemma occ_in_kids_at {A} (g : tm -> addr -> list A) pre l t post nx (y : A) :
+  In y (g t (nx + kids_sz pre)) -> In y (kids_at g (pre ++ (l, t) :: post) nx).
+Proof.
+  intro H. rewrite kids_at_app. apply in_or_app. right. simpl. apply in_or_app. left. exact H.
+Qed.
+
+Lemma occ_assign t next a m k kids p : occ t next (a, m, k, kids, p) -> In (a, p) (assign t next).
+Proof.
+  intro H. remember (a, m, k, kids, p) as x eqn:Ex. revert a m k kids p Ex.
+  induction H as [a0 m0 k0 kids0 next | a0 m0 k0 kids0 next pre l t post x E Ho IH]; intros a m k kids p Ex.
+  - inversion Ex; subst. left. reflexivity.
+  - subst x kids0. simpl. right. apply occ_in_kids_at.
+    replace (next + 1 + kids_sz pre) with (next + 1 + kids_sz pre) by lia. eapply IH. reflexivity.
+Qed.
+
+Lemma occ_marks t next a id k kids p :
+  occ t next (a, Some id, k, kids, p) -> In (dec_bytes id, p) (marks_at t next).
+Proof.
+  intro H. remember (a, Some id, k, kids, p) as x eqn:Ex. revert a id k kids p Ex.
+  induction H as [a0 m0 k0 kids0 next | a0 m0 k0 kids0 next pre l t post x E Ho IH]; intros a id k kids p Ex.
+  - inversion Ex; subst. rewrite marks_at_node. left. reflexivity.
+  - subst x kids0. rewrite marks_at_node. apply in_or_app. right. apply occ_in_kids_at. eapply IH. reflexivity.
+Qed.
+
+Lemma occ_trans t0 next0 a m k kids p :
+  occ t0 next0 (a, m, k, kids, p) ->
+  forall pre l t post y, kids = pre ++ (l, t) :: post -> occ t (p + 1 + kids_sz pre) y -> occ t0 next0 y.
+Proof.
+  intro H. remember (a, m, k, kids, p) as x eqn:Ex. revert a m k kids p Ex.
+  induction H as [a0 m0 k0 kids0 next | a0 m0 k0 kids0 next pre0 l0 t1 post0 x E Ho IH];
+    intros a m k kids p Ex pre l t post y Hk Hy.
+  - inversion Ex; subst. eapply occ_kid; eauto.
+  - subst x. eapply occ_kid; [exact E|]. eapply IH; eauto.
+Qed.
+
+Lemma assign_srcs t next : map fst (assign t next) = tm_srcs t.
+Proof.
+  revert next. induction t as [| |id|a m k kids IHk] using tm_ind'; intro next; try reflexivity.
+  cbn [assign tm_srcs map]. f_equal. generalize (next + 1).
+  induction kids as [|[l t] ks IHl]; intro nx; [reflexivity|].
+  inversion IHk as [|x xs Hx Hxs]; subst. simpl in Hx. simpl. rewrite map_app, Hx, (IHl Hxs). reflexivity.
+Qed.
+
+Lemma assign_range t next : forall a p, In (a, p) (assign t next) -> next <= p < next + tm_size t.
+Proof.
+  revert next. induction t as [| |id|a0 m k kids IHk] using tm_ind'; intros next a p H; try (simpl in H; contradiction).
+  rewrite tm_size_node. cbn [assign] in H. destruct H as [Heq|H]; [inversion Heq; subst; lia|].
+  assert (Hk : forall nx, In (a, p) (kids_at assign kids nx) -> nx <= p < nx + kids_sz kids).
+  { clear H. induction kids as [|[l t] ks IHl]; intros nx Hin; [destruct Hin|].
+    inversion IHk as [|x xs Hx Hxs]; subst. simpl in Hx. simpl in Hin. rewrite kids_sz_cons.
+    apply in_app_or in Hin. destruct Hin as [Hin|Hin].
+    - apply Hx in Hin. lia.
+    - apply (IHl Hxs) in Hin. lia. }
+  apply Hk in H. lia.
+Qed.
+
+Lemma NoDup_app_intro {A} (l1 l2 : list A) :
+  NoDup l1 -> NoDup l2 -> (forall x, In x l1 -> In x l2 -> False) -> NoDup (l1 ++ l2).
+Proof.
+  induction l1 as [|x l1 IH]; simpl; intros H1 H2 Hd; [exact H2|].
+  inversion H1; subst. constructor.
+  - intro Hin. apply in_app_or in Hin. destruct Hin as [Hin|Hin]; [contradiction|]. eapply Hd; [left; reflexivity | exact Hin].
+  - apply IH; [assumption | assumption |]. intros y Hy1 Hy2. eapply Hd; [right; exact Hy1 | exact Hy2].
+Qed.
+
+Lemma assign_addrs_nodup t next : NoDup (map snd (assign t next)).
+Proof.
+  revert next. induction t as [| |id|a0 m k kids IHk] using tm_ind'; intro next; try (simpl; constructor; fail).
+  cbn [assign map snd]. constructor.
+  - intro Hin. apply in_map_iff in Hin. destruct Hin as [[a p] [Hp Hin]]. simpl in Hp. subst p.
+    assert (Hk : forall ks nx, In (a, next) (kids_at assign ks nx) -> nx <= next).
+    { induction ks as [|[l t] ks IHl]; intros nx Hin'; [destruct Hin'|].
+      cbn [kids_at snd] in Hin'. apply in_app_or in Hin'. destruct Hin' as [Hin'|Hin'].
+      - apply assign_range in Hin'. lia.
+      - apply IHl in Hin'. lia. }
+    apply Hk in Hin. lia.
+  - generalize (next + 1).
+    induction kids as [|[l t] ks IHl]; intro nx; [constructor|].
+    inversion IHk as [|x xs Hx Hxs]; subst. simpl in Hx. cbn [kids_at snd]. rewrite map_app.
+    apply NoDup_app_intro; [apply Hx | apply (IHl Hxs) |].
+    intros p H1 H2. apply in_map_iff in H1. destruct H1 as [[a1 p1] [E1 H1]]. simpl in E1. subst p1.
+    apply in_map_iff in H2. destruct H2 as [[a2 p2] [E2 H2]]. simpl in E2. subst p2.
+    apply assign_range in H1.
+    assert (Hk : forall ks' nx', In (a2, p) (kids_at assign ks' nx') -> nx' <= p).
+    { induction ks' as [|[l' t'] ks' IHs]; intros nx' Hin; [destruct Hin|].
+      cbn [kids_at snd] in Hin. apply in_app_or in Hin. destruct Hin as [Hin|Hin].
+      - apply assign_range in Hin. lia.
+      - apply IHs in Hin. lia. }
+    apply Hk in H2. lia.
+Qed.
+
+(* ---- isomorphism of pointed heaps ---- *)
+Inductive reach (h : heap) (root : ref) : addr -> Prop :=
+| reach_root a : root = Some a -> reach h root a
+| reach_step a n l b : reach h root a -> hget h a = Some n -> In (l, Some b) (nkids n) -> reach h root b.
+
+Definition lift (phi : addr -> addr) (r : ref) : ref := option_map phi r.
+
+(* phi maps the objects reachable from root one-to-one onto objects of h' of the same kind and payload,
+   whose references are, label by label, the images of the original references *)
+Definition iso (phi : addr -> addr) (h : heap) (root : ref) (h' : heap) (root' : ref) : Prop :=
+  root' = lift phi root /\
+  (forall a b, reach h root a -> reach h root b -> phi a = phi b -> a = b) /\
+  (forall a, reach h root a ->
+     exists n n', hget h a = Some n /\ hget h' (phi a) = Some n' /\ nkind n' = nkind n /\
+       forall l, kget l (nkids n') = option_map (lift phi) (kget l (nkids n))).
+
+Fixpoint afind (a : addr) (l : list (addr * addr)) : option addr :=
+  match l with [] => None | (x, p) :: r => if a =? x then Some p else afind a r end.
+Lemma afind_In a p l : NoDup (map fst l) -> In (a, p) l -> afind a l = Some p.
+Proof.
+  induction l as [|[x q] l IH]; simpl; intros Hn Hin; [contradiction|].
+  inversion Hn; subst. destruct Hin as [Heq|Hin].
+  - inversion Heq; subst. rewrite N.eqb_refl. reflexivity.
+  - destruct (a =? x) eqn:E; [|apply IH; assumption].
+    apply N.eqb_eq in E. subst. exfalso. apply H1. apply in_map_iff. exists (x, p). auto.
+Qed.
+Lemma bfind_In b x l : NoDup (map fst l) -> In (b, x) l -> bfind b l = Some x.
+Proof.
+  induction l as [|[y q] l IH]; simpl; intros Hn Hin; [contradiction|].
+  inversion Hn; subst. destruct Hin as [Heq|Hin].
+  - inversion Heq; subst. rewrite bytes_eqb_refl. reflexivity.
+  - destruct (bytes_eqb b y) eqn:E; [|apply IH; assumption].
+    apply bytes_eqb_eq in E. subst. exfalso. apply H1. apply in_map_iff. exists (y, x). auto.
+Qed.
+Lemma bfind_None b l : ~ In b (map fst l) -> bfind b l = None.
+Proof.
+  induction l as [|[y q] l IH]; simpl; intro H; [reflexivity|].
+  rewrite bytes_eqb_neq by (intro; apply H; left; congruence). apply IH. intro. apply H. right. assumption.
+Qed.
+
+Lemma tm_bids_marked t : tm_bids t = map (fun p : addr * N => dec_bytes (snd p)) (tm_marked t).
+Proof.
+  induction t as [| |id|a m k kids IHk] using tm_ind'; try reflexivity.
+  cbn [tm_bids tm_marked]. rewrite map_app. f_equal; [destruct m; reflexivity|].
+  induction kids as [|[l t] ks IHl]; [reflexivity|].
+  inversion IHk as [|x xs Hx Hxs]; subst. simpl in Hx. simpl. rewrite map_app, Hx, (IHl Hxs). reflexivity.
+Qed.
+Lemma marks_fst t next : map fst (marks_at t next) = tm_bids t.
+Proof.
+  revert next. induction t as [| |id|a m k kids IHk] using tm_ind'; intro next; try reflexivity.
+  rewrite marks_at_node, tm_bids_node, map_app. f_equal; [destruct m; reflexivity|].
+  generalize (next + 1). unfold kids_bids.
+  induction kids as [|[l t] ks IHl]; intro nx; [reflexivity|].
+  inversion IHk as [|x xs Hx Hxs]; subst. simpl in Hx. cbn [kids_at snd flat_map]. rewrite map_app, Hx, (IHl Hxs). reflexivity.
+Qed.
+
+Lemma marked_occ t : forall next a id, In (a, id) (tm_marked t) -> exists k kids p, occ t next (a, Some id, k, kids, p).
+Proof.
+  induction t as [| |id0|a0 m k kids IHk] using tm_ind'; intros next a id H; try (simpl in H; contradiction).
+  cbn [tm_marked] in H. apply in_app_or in H. destruct H as [H|H].
+  - destruct m as [id1|]; [|destruct H]. destruct H as [Heq|[]]. inversion Heq; subst.
+    exists k, kids, next. apply occ_here.
+  - assert (Hk : exists pre l t post, kids = pre ++ (l, t) :: post /\ In (a, id) (tm_marked t) /\
+                   Forall (fun lt : label * tm => forall next a id, In (a, id) (tm_marked (snd lt)) ->
+                              exists k kids p, occ (snd lt) next (a, Some id, k, kids, p)) [(l, t)]).
+    { clear - H IHk. induction kids as [|[l t] ks IHl]; [destruct H|].
+      inversion IHk as [|x xs Hx Hxs]; subst. simpl in H. apply in_app_or in H. destruct H as [H|H].
+      - exists [], l, t, ks. split; [reflexivity|]. split; [exact H|]. constructor; [exact Hx | constructor].
+      - destruct (IHl Hxs H) as [pre [l' [t' [post [E [Hin HF]]]]]]. exists ((l, t) :: pre), l', t', post.
+        split; [rewrite E; reflexivity|]. split; assumption. }
+    destruct Hk as [pre [l [t [post [E [Hin HF]]]]]]. inversion HF as [|x xs Hx _]; subst. simpl in Hx.
+    destruct (Hx (next + 1 + kids_sz pre) a id Hin) as [k' [kids' [p' Ho]]].
+    exists k', kids', p'. eapply occ_kid; [reflexivity | exact Ho].
+Qed.
+
+Section Final.
+Variable h : heap.
+Variable dups : list addr.
+Hypothesis node_ok : forall a n, hget h a = Some n -> node_typed h n = true.
+Hypothesis nonempty : forall a n, hget h a = Some n -> container_empty n = false.
+Hypothesis kids_closed : forall a n l b, hget h a = Some n -> In (l, Some b) (nkids n) -> exists n', hget h b = Some n'.
+
+Notation rel := (rel h dups false).
+Notation rel_kids := (rel_kids h dups false).
+
+Lemma rel_kids_mid sF sf pre l t post : forall rs,
+  rel_kids sF sf (pre ++ (l, t) :: post) rs ->
+  exists rpre r rpost, rs = rpre ++ (l, r) :: rpost /\ map fst rpre = map fst pre /\
+    rel sF r t /\ (is_omit t = true -> sf = true) /\ (sf = true -> t <> TNull).
+Proof.
+  induction pre as [|[l0 t0] pre IH]; intros [|[l' r'] rs] H; simpl in H; try contradiction.
+  - destruct H as [<- [H1 [H2 [H3 _]]]]. exists [], r', rs. repeat split; auto.
+  - destruct H as [<- [_ [_ [_ H4]]]]. destruct (IH _ H4) as [rpre [r [rpost [E [Hl Hr]]]]].
+    exists ((l0, r') :: rpre), r, rpost. split; [rewrite E; reflexivity|]. split; [simpl; rewrite Hl; reflexivity | exact Hr].
+Qed.
+
+Lemma rel_kids_entry sF sf kids : forall rs l r,
+  rel_kids sF sf kids rs -> In (l, r) rs ->
+  exists pre t post, kids = pre ++ (l, t) :: post /\ rel sF r t /\ (is_omit t = true -> sf = true).
+Proof.
+  induction kids as [|[l0 t0] ks IH]; intros [|[l' r'] rs] l r H Hin; simpl in H; try contradiction; try (destruct Hin; fail).
+  destruct H as [<- [H1 [_ [H3 H4]]]]. destruct Hin as [Heq|Hin].
+  - inversion Heq; subst. exists [], t0, ks. repeat split; auto.
+  - destruct (IH _ _ _ H4 Hin) as [pre [t [post [E Hr]]]]. exists ((l0, t0) :: pre), t, post.
+    split; [rewrite E; reflexivity | exact Hr].
+Qed.
+
+Lemma occ_rel sF t next x : occ t next x -> forall r, rel sF r t ->
+  match x with
+  | (a, m, k, kids, p) =>
+      exists n, hget h a = Some n /\ k = nkind n /\
+        match m with
+        | Some id => mem a dups = true /\ named_find a (g_named sF) = Some id
+        | None => mem a dups = false
+        end /\ rel_kids sF (is_struct n) kids (nkids n)
+  end.
+Proof.
+  intro H. induction H as [a m k kids next | a m k kids next pre l t post x E Ho IH]; intros r Hr.
+  - apply rel_node in Hr. destruct Hr as [_ [n [H1 [H2 [H3 H4]]]]]. exists n. auto.
+  - apply rel_node in Hr. destruct Hr as [_ [n [H1 [H2 [H3 H4]]]]]. subst kids.
+    destruct (rel_kids_mid _ _ _ _ _ _ _ H4) as [rpre [r' [rpost [_ [_ [Hr' _]]]]]]. eapply IH; eauto.
+Qed.
+
+Lemma kid_lookup_spec l kids : forall nx t pt,
+  kid_lookup l kids nx = Some (t, pt) ->
+  exists pre post, kids = pre ++ (l, t) :: post /\ pt = nx + kids_sz pre /\ ~ In l (map fst pre).
+Proof.
+  induction kids as [|[l0 t0] ks IH]; intros nx t pt H; simpl in H; [discriminate|].
+  destruct (label_eqb l l0) eqn:E.
+  - apply label_eqb_eq in E. subst l0. inversion H; subst. exists [], ks. rewrite kids_sz_nil. repeat split; auto; lia.
+  - destruct (IH _ _ _ H) as [pre [post [Ek [Hp Hn]]]]. exists ((l0, t0) :: pre), post.
+    split; [rewrite Ek; reflexivity|]. split; [rewrite kids_sz_cons; lia|].
+    intros [Heq|Hin]; [subst; rewrite label_eqb_refl in E; discriminate | contradiction].
+Qed.
+Lemma kid_lookup_none l kids : forall nx, kid_lookup l kids nx = None -> ~ In l (map fst kids).
+Proof.
+  induction kids as [|[l0 t0] ks IH]; intros nx H; simpl in *; [tauto|].
+  destruct (label_eqb l l0) eqn:E; [discriminate|].
+  intros [Heq|Hin]; [subst; rewrite label_eqb_refl in E; discriminate | eapply IH; eauto].
+Qed.
+Lemma kget_split l r rpre rpost : ~ In l (map fst rpre) -> kget l (rpre ++ (l, r) :: rpost) = Some r.
+Proof.
+  induction rpre as [|[l0 r0] rpre IH]; simpl; intro H.
+  - rewrite label_eqb_refl. reflexivity.
+  - rewrite label_eqb_neq by (intro; apply H; left; congruence). apply IH. intro. apply H. right. assumption.
+Qed.
+Lemma kget_none l rs : ~ In l (map fst rs) -> kget l rs = None.
+Proof.
+  induction rs as [|[l0 r0] rs IH]; simpl; intro H; [reflexivity|].
+  rewrite label_eqb_neq by (intro; apply H; left; congruence). apply IH. intro. apply H. right. assumption.
+Qed.
+Lemma kget_zero l : In l (map fst zero_fields) -> kget l zero_fields = Some None.
+Proof.
+  simpl. intros [<-|[<-|[<-|[<-|[<-|[]]]]]]; reflexivity.
+Qed.
+
+Lemma empty_target_nil r : empty_target h r = true -> (match r with Some b => exists n, hget h b = Some n | None => True end) -> r = None.
+Proof.
+  destruct r as [b|]; [|reflexivity]. simpl. intros He [n Hn]. rewrite Hn in He.
+  rewrite (nonempty _ _ Hn) in He. discriminate.
+Qed.
+
+Variable root0 : addr.
+Variables (fuel : nat) (t0 : tm) (s' : ist).
+Hypothesis dups_small : N.of_nat (length dups) < 4294967296.
+Hypothesis keys_distinct : NoDup (map fst h).
+Hypothesis root_ok : exists n, hget h root0 = Some n.
+Hypothesis root_struct : target_ok h TPtr (Some root0) = true.
+Hypothesis Htrav : gtrav h dups false fuel (Some root0) ist0 = Some (t0, s').
+Hypothesis srcs_nd : NoDup (tm_srcs t0).
+
+Let M : bytes -> option addr := fun b => bfind b (marks_at t0 0).
+Let phi : addr -> addr := fun a => match afind a (assign t0 0) with Some p => p | None => 0 end.
+
+Lemma F_rel : rel s' (Some root0) t0.
+Proof. eapply t0_rel; eauto. Qed.
+Lemma F_named : g_named s' = rev (tm_marked t0).
+Proof. eapply t0_named; eauto. Qed.
+Lemma F_ok : ist_ok dups s'.
+Proof. eapply t0_ok; eauto. Qed.
+
+Lemma F_root_node : exists m k kids, t0 = TNode root0 m k kids.
+Proof.
+  destruct fuel as [|f]; [simpl in Htrav; discriminate|].
+  rewrite gtrav_S in Htrav. destruct (hget h root0) as [n|]; [|discriminate].
+  destruct (mem root0 dups).
+  - simpl in Htrav. destruct (gtrav_kids _ _ _ _ _ _) as [[ts s2]|]; [|discriminate]. inversion Htrav; subst. eauto.
+  - destruct (gtrav_kids _ _ _ _ _ _) as [[ts s2]|]; [|discriminate]. inversion Htrav; subst. eauto.
+Qed.
+
+Lemma F_ids_small a id : In (a, id) (tm_marked t0) -> id < 4294967296.
+Proof.
+  intro H. destruct F_ok as [H1 [_ [H3 H4]]].
+  assert (Hin : In (a, id) (g_named s')) by (rewrite F_named; apply in_rev in H; exact H).
+  destruct (H3 _ _ Hin) as [_ Hlt]. rewrite H4 in Hlt.
+  assert (Hlen : (length (map fst (g_named s')) <= length dups)%nat).
+  { apply NoDup_incl_length; [exact H1|]. intros x Hx. apply in_map_iff in Hx. destruct Hx as [[x' i] [Hx1 Hx2]]. simpl in Hx1. subst.
+    apply mem_In. apply (H3 _ _ Hx2). }
+  rewrite map_length in Hlen. lia.
+Qed.
+
+Lemma F_bids_nodup : NoDup (tm_bids t0).
+Proof.
+  rewrite tm_bids_marked.
+  destruct (marked_nodup h dups false dups_small (Some root0) fuel t0 s' Htrav) as [_ Hn].
+  assert (Hs := F_ids_small).
+  revert Hn Hs. generalize (tm_marked t0). induction l as [|[a id] l IH]; intros Hn Hs; simpl; [constructor|].
+  simpl in Hn. inversion Hn; subst. constructor.
+  - intro Hin. apply in_map_iff in Hin. destruct Hin as [[a' id'] [He Hin]]. simpl in He.
+    apply dec_bytes_inj in He; [| eapply Hs; right; exact Hin | eapply Hs; left; reflexivity].
+    subst. apply H1. apply in_map_iff. exists (a', id). auto.
+  - apply IH; [assumption|]. intros a' id' Hin. eapply Hs. right. exact Hin.
+Qed.
+
+Lemma F_M_occ a id k kids p : occ t0 0 (a, Some id, k, kids, p) -> M (dec_bytes id) = Some p.
+Proof.
+  intro Ho. unfold M. apply bfind_In; [rewrite marks_fst; exact F_bids_nodup | apply occ_marks in Ho; exact Ho].
+Qed.
+
+Lemma F_phi_occ a m k kids p : occ t0 0 (a, m, k, kids, p) -> phi a = p.
+Proof.
+  intro Ho. unfold phi. rewrite (afind_In a p); [reflexivity | rewrite assign_srcs; exact srcs_nd | eapply occ_assign; eauto].
+Qed.
+
+Lemma F_named_occ a id : named_find a (g_named s') = Some id -> exists k kids p, occ t0 0 (a, Some id, k, kids, p).
+Proof.
+  intro H. destruct F_ok as [H1 _]. apply (named_find_In a id _ H1) in H. rewrite F_named in H.
+  apply in_rev in H. apply marked_occ. exact H.
+Qed.
+
+(* every reachable object is written out somewhere in the tree *)
+Lemma F_reach_occ a : reach h (Some root0) a -> exists m k kids p, occ t0 0 (a, m, k, kids, p).
+Proof.
+  intro H. induction H as [a Ha | a n l b Hr IH Hn Hin].
+  - injection Ha as <-. destruct F_root_node as [m [k [kids E]]]. rewrite E. exists m, k, kids, 0. apply occ_here.
+  - destruct IH as [m [k [kids [p Ho]]]].
+    destruct (occ_rel s' _ _ _ Ho _ F_rel) as [n' [Hn' [Hk [Hm Hkids]]]].
+    rewrite Hn in Hn'. inversion Hn'; subst n'.
+    destruct (rel_kids_entry _ _ _ _ _ _ Hkids Hin) as [pre [t [post [E [Hrt Hom]]]]].
+    destruct t as [| |id|b' m' k' kids'].
+    + destruct Hrt as [He _].
+      apply empty_target_nil in He; [discriminate | eapply kids_closed; eauto].
+    + discriminate Hrt.
+    + destruct Hrt as [b0 [Hb0 [_ Hnf]]]. inversion Hb0; subst b0.
+      destruct (F_named_occ _ _ Hnf) as [k1 [kids1 [p1 Ho1]]]. eauto.
+    + assert (Hb' : b' = b) by (apply rel_node in Hrt; destruct Hrt as [Hb' _]; congruence). subst b'.
+      exists m', k', kids', (p + 1 + kids_sz pre). eapply occ_trans; [exact Ho | exact E | apply occ_here].
+Qed.
+
+Lemma rel_rids sF t : forall r b, rel sF r t -> In b (tm_rids t) ->
+  exists a id, b = dec_bytes id /\ named_find a (g_named sF) = Some id.
+Proof.
+  induction t as [| |id|a m k kids IHk] using tm_ind'; intros r b H Hin; try (simpl in Hin; contradiction).
+  - destruct H as [a [_ [_ Hn]]]. simpl in Hin. destruct Hin as [<-|[]]. eauto.
+  - apply rel_node in H. destruct H as [_ [n [_ [_ [_ Hkids]]]]]. cbn [tm_rids] in Hin.
+    revert Hkids Hin. generalize (nkids n). generalize (is_struct n).
+    induction kids as [|[l t] ks IHl]; intros sf [|[l' r'] rs] Hrel Hin; simpl in Hrel; try contradiction.
+    destruct Hrel as [_ [_ [_ [Hrt Hrest]]]]. inversion IHk as [|y ys Hy Hys]; subst. simpl in Hy.
+    simpl in Hin. apply in_app_or in Hin. destruct Hin as [Hin|Hin].
+    + eapply Hy; eauto.
+    + eapply IHl; eauto.
+Qed.
+
+Lemma F_rids b : In b (tm_rids t0) -> In b (tm_bids t0).
+Proof.
+  intro H. destruct (rel_rids _ _ _ _ F_rel H) as [a [id [-> Hn]]].
+  destruct (F_named_occ _ _ Hn) as [k [kids [p Ho]]]. apply occ_marks in Ho.
+  rewrite <- (marks_fst t0 0). apply in_map_iff. exists (dec_bytes id, p). auto.
+Qed.
+
+Lemma bfind_some b l : In b (map fst l) -> exists x, bfind b l = Some x.
+Proof.
+  induction l as [|[y q] l IH]; simpl; intro H; [contradiction|].
+  destruct (bytes_eqb b y) eqn:E; [eauto|]. destruct H as [H|H]; [subst; rewrite bytes_eqb_refl in E; discriminate | auto].
+Qed.
+
+Lemma snd_inj_of_nodup (l : list (addr * addr)) a b p : NoDup (map snd l) -> In (a, p) l -> In (b, p) l -> a = b.
+Proof.
+  induction l as [|[x q] l IH]; simpl; intros Hn H1 H2; [contradiction|].
+  inversion Hn; subst. destruct H1 as [E1|H1], H2 as [E2|H2].
+  - congruence.
+  - inversion E1; subst. exfalso. apply H3. apply in_map_iff. exists (b, p). auto.
+  - inversion E2; subst. exfalso. apply H3. apply in_map_iff. exists (a, p). auto.
+  - eapply IH; eauto.
+Qed.
+
+Lemma F_expect a m k kids p n :
+  occ t0 0 (a, m, k, kids, p) -> hget h a = Some n -> k = nkind n ->
+  rel_kids s' (is_struct n) kids (nkids n) ->
+  forall l, expect M l k kids (p + 1) = option_map (lift phi) (kget l (nkids n)).
+Proof.
+  intros Ho Hn Hk Hkids l. unfold expect.
+  assert (Hlab := rel_kids_labels h dups _ _ _ _ Hkids).
+  assert (Hty := node_ok _ _ Hn).
+  destruct (kid_lookup l kids (p + 1)) as [[t pt]|] eqn:E.
+  - destruct (kid_lookup_spec _ _ _ _ _ E) as [pre [post [Ek [Hpt Hnp]]]].
+    rewrite Ek in Hkids. destruct (rel_kids_mid _ _ _ _ _ _ _ Hkids) as [rpre [r [rpost [Er [Hl [Hrt [Hom _]]]]]]].
+    rewrite Er. rewrite kget_split by (rewrite Hl; exact Hnp). simpl option_map.
+    assert (Hin : In (l, r) (nkids n)) by (rewrite Er; apply in_or_app; right; left; reflexivity).
+    destruct t as [| |id|b' m' k' kids'].
+    + simpl is_omit. cbn iota. specialize (Hom eq_refl). destruct Hrt as [He _].
+      assert (r = None).
+      { apply empty_target_nil; [exact He|]. destruct r as [b|]; [|exact I]. eapply kids_closed; eauto. }
+      subst r. unfold is_struct in Hom. subst k. destruct (nkind n) as [v| |] eqn:Ekn; try discriminate.
+      simpl base_kids. destruct (struct_kids h n v Hty Ekn) as [Hz _].
+      rewrite kget_zero; [reflexivity|]. rewrite <- Hz, Er, map_app. apply in_or_app. right. left. reflexivity.
+    + simpl. assert (r = None) by exact Hrt. subst r. reflexivity.
+    + simpl is_omit. cbn iota. destruct Hrt as [b [-> [_ Hnf]]].
+      destruct (F_named_occ _ _ Hnf) as [k1 [kids1 [p1 Ho1]]].
+      simpl val_of. rewrite (F_M_occ _ _ _ _ _ Ho1). simpl. rewrite (F_phi_occ _ _ _ _ _ Ho1). reflexivity.
+    + simpl is_omit. cbn iota. simpl val_of.
+      assert (Hr : r = Some b') by (apply rel_node in Hrt; destruct Hrt as [Hr _]; exact Hr). subst r.
+      assert (Ho2 : occ t0 0 (b', m', k', kids', pt)).
+      { eapply occ_trans; [exact Ho | exact Ek |]. rewrite Hpt. apply occ_here. }
+      simpl. rewrite (F_phi_occ _ _ _ _ _ Ho2). reflexivity.
+  - apply kid_lookup_none in E. rewrite Hlab in E. rewrite (kget_none _ _ E). simpl.
+    subst k. destruct (nkind n) as [v| |] eqn:Ekn; simpl; try reflexivity.
+    destruct (struct_kids h n v Hty Ekn) as [Hz _]. apply (kget_none l zero_fields). rewrite <- Hz. exact E.
+Qed.
+
+Lemma sim_bst0 : Sim M bst0 bst0.
+Proof.
+  constructor; simpl.
+  - reflexivity.
+  - reflexivity.
+  - intro p. exact I.
+  - intros; discriminate.
+  - intros; contradiction.
+  - intros; discriminate.
+  - constructor.
+  - intros; discriminate.
+Qed.
+
+Lemma F_main :
+  exists sr', eff_val b_ref b_mark t0 FTop bst0 = Some (FTop, sr') /\ b_root sr' = Some (Some 0) /\
+              iso phi h (Some root0) (b_heap sr') (Some 0).
+Proof.
+  destruct (rel_wf h dups node_ok s' t0 _ F_rel) as [Hwf Hnn].
+  destruct F_root_node as [m0 [k0 [kids0 Et0]]].
+  destruct (rel_total h dups node_ok b_ref b_mark s' t0 Hwf (Some root0) TPtr FTop bst0 F_rel root_struct eq_refl) as [sr' Er].
+  { rewrite Et0. reflexivity. } { intros id E. rewrite Et0 in E. discriminate. } { intro E. rewrite Et0 in E. discriminate. }
+  simpl next_frame in Er. exists sr'. split; [exact Er|].
+  assert (HM : forall id x, In (id, x) (marks_at t0 (b_next bst0)) -> M id = Some x).
+  { intros id x Hin. unfold M. apply bfind_In; [rewrite marks_fst; exact F_bids_nodup | exact Hin]. }
+  destruct (sim_val M t0 Hwf FTop bst0 bst0 FTop sr' sim_bst0 I F_bids_nodup (fun _ _ => eq_refl) HM Er)
+    as [si' [Ei [S' P']]].
+  (* no setter is left waiting *)
+  assert (Hpe : forall sl, ~ pending sr' sl).
+  { intros sl [id Hin]. destruct sl as [q l].
+    destruct (sim_pend _ _ _ S' _ _ _ Hin) as [Hnone _].
+    destruct (pend_ids t0 _ _ _ _ Er _ _ Hin) as [[]|Hrid].
+    apply F_rids in Hrid. rewrite (post_marked _ _ _ _ _ P') in Hnone.
+    rewrite (proj2 (bmem_In _ _) Hrid) in Hnone.
+    destruct (bfind_some id (marks_at t0 0)) as [x Hx]; [rewrite marks_fst; exact Hrid|].
+    unfold M in Hnone. congruence. }
+  assert (A0 : allocated bst0) by (intros q n Hq; discriminate).
+  destruct (ideal_val M t0 Hwf Hnn FTop bst0 FTop si' A0) as [_ [_ [_ [Hroot [_ Hocc]]]]]; [rewrite Et0; exact I | exact I | exact Ei |].
+  assert (Hr : b_root sr' = Some (Some 0)).
+  { rewrite (sim_root _ _ _ S'), (Hroot eq_refl), Et0. reflexivity. }
+  split; [exact Hr|].
+  split; [|split].
+  - simpl. f_equal. symmetry. apply (F_phi_occ root0 m0 k0 kids0 0). rewrite Et0. apply occ_here.
+  - intros a b Ha Hb Hab.
+    destruct (F_reach_occ _ Ha) as [ma [ka [kidsa [pa Hoa]]]]. destruct (F_reach_occ _ Hb) as [mb [kb [kidsb [pb Hob]]]].
+    rewrite (F_phi_occ _ _ _ _ _ Hoa), (F_phi_occ _ _ _ _ _ Hob) in Hab. subst pb.
+    eapply (snd_inj_of_nodup (assign t0 0)); [apply assign_addrs_nodup | eapply occ_assign; eauto | eapply occ_assign; eauto].
+  - intros a Ha. destruct (F_reach_occ _ Ha) as [m [k [kids [p Ho]]]].
+    destruct (occ_rel s' _ _ _ Ho _ F_rel) as [n [Hn [Hk [_ Hkids]]]].
+    destruct (Hocc _ Ho) as [ni [Hi [Hki Hli]]].
+    destruct (sim_exists_r _ _ _ _ _ S' Hi) as [nr Hnr].
+    assert (D := sim_dom _ _ _ S' p). rewrite Hnr, Hi in D.
+    exists n, nr. split; [exact Hn|]. rewrite (F_phi_occ _ _ _ _ _ Ho). split; [exact Hnr|]. split; [congruence|].
+    intro l. rewrite (sim_slot _ _ _ S' p l nr ni Hnr Hi (Hpe _)), Hli.
+    eapply F_expect; eauto.
+Qed.
+
+End Final.
